@@ -5,9 +5,13 @@ orientation; aborts at arbitrary decisions followed by a fresh object.  Oracle: 
 """
 from itertools import combinations
 
+import gcmpy.covers.eecc as _eecc_module
 from gcmpy.covers.eecc import EECC
 
+from .. import setseam
 from ..engine import describe_exc
+
+setseam.install(_eecc_module)       # `set(...)` in eecc.py now builds sets whose iteration order the scheduler controls
 
 ID = "C09"
 RUNS = {"quick": 40000, "thorough": 60000, "thorough_s": 300}
@@ -19,7 +23,8 @@ RULE = ("seeded simple graphs without isolated vertices: clustered graphs (union
         "planted overlapping cliques (cliques sharing an edge / a vertex, chains of triangles), complete graphs, arbitrary "
         "non-contiguous integer labels, scheduler-chosen edge insertion order and orientation, built by add_edge or "
         "add_edges_from; m0 in 2..6 (below, at, above the clique number); tie-break schedules uniform/first/last/"
-        "sticky/mix; aborts at a chosen decision then a fresh object; non-trivial = graph has >= 2 edges; distinct = "
+        "sticky/mix; the iteration order of the library's hash sets (unspecified by the language) natural / reversed / rotated / "
+        "shuffled by the scheduler; aborts at a chosen decision then a fresh object; non-trivial = graph has >= 2 edges; distinct = "
         "distinct execution digests")
 ASSUMPTIONS = ["oracle computes adjacency and maximal cliques itself (own Bron-Kerbosch), independent of networkx find_cliques",
                "a result must arrive within 50*|E|+100 tie-break decisions (each round removes at least one edge)"]
@@ -109,7 +114,9 @@ def generate(prng, tier, index):
     sc = {"variant": variant, "edges": gen_graph(prng, big),
           "m0": prng.choice((2, 2, 3, 3, 4, 5, 6)) if prng.random() > 0.04 else prng.choice((7, 8, 9, 16, 100, 2 ** 31)),
           "policy": prng.choice(({}, {"int": "min"}, {"int": "max"}, {"int": "sticky"}, {"int": "mix", "p": 0.5})),
-          "build": prng.choice(("add_edge", "add_edges_from"))}
+          "build": prng.choice(("add_edge", "add_edges_from")),
+          # iteration order of the library's hash sets: unspecified by the language, so the scheduler may choose it
+          "set_order": prng.choice(("natural", "natural", "reversed", "rotated", "shuffled", "shuffled"))}
     if variant == "faults":
         sc["abort_at"] = prng.choice((0, 0, 0, 1, 1, 2, 3))
     return sc
@@ -219,7 +226,15 @@ def execute(sc, ctx):
     except Exception as e:
         ctx.violate(f"{P}.raised", f"building the graph raised {describe_exc(e)}")
         return
-    st, cover = ctx.call(src, g.get_EECC, budget=budget, label="get_EECC")
+    mode = sc.get("set_order", "natural")
+    osrc = ctx.source("setorder", None)
+    before_it = setseam.ITERATIONS
+    with setseam.ordering(mode, osrc):
+        st, cover = ctx.call(src, g.get_EECC, budget=budget, label=f"get_EECC[sets {mode}]")
+    if setseam.ITERATIONS > before_it and mode != "natural":
+        ctx.probe("set_iterations_reordered", setseam.ITERATIONS - before_it)
+        ctx.fault("set_iteration_order")
+    tag = tag + (f" (hash sets iterated in {mode} order)" if mode != "natural" else "")
     if st == "budget":
         ctx.violate(f"{P}.raised", f"no result within {budget} tie-break decisions for {nE} edges (m0={sc['m0']}){tag}")
         return
@@ -255,6 +270,8 @@ def shrink(sc):
             yield dict(sc, edges=es[:i] + es[i + 1:])
     if sc.get("policy"):
         yield dict(sc, policy={})
+    if sc.get("set_order", "natural") not in ("natural", "reversed"):
+        yield dict(sc, set_order="reversed")
     # canonical labels / order
     canon = sorted(sorted(e) for e in es)
     if canon != es:
